@@ -322,4 +322,424 @@ Section Steps.
         now rewrite pu_emit_end_other.
     Qed.
   End Push.
+
+  (* ---------- a worker receives from its next worker's bucket (syncWith) ---------- *)
+
+  Section Recv.
+    Variables (s : pstate) (i : nat) (v : chunk) (newpc : pc).
+    Hypothesis I : PInv s.
+    Hypothesis Hi : i < nw.
+    Hypothesis Hact : w_active (getw s i) = true.
+    Let w := getw s i.
+    Let j := w_next w.
+    Hypothesis Hj : j < nw.
+    Let b := getw s j.
+    Hypothesis Hhead : nth_error (w_emit b) (w_cons b) = Some v.
+    Let b' := recv_w b v.
+    Let w' := with_pc w newpc.
+    Let s' := setw (setw s j b') i w'.
+    Hypothesis Hnex : is_ex newpc = false.
+
+    Lemma rc_ij : i < j. Proof. apply (p_next _ _ _ _ _ _ s I i Hi). Qed.
+
+    Lemma rc_getw x : getw s' x = if i =? x then w' else if j =? x then b' else getw s x.
+    Proof.
+      unfold s'. rewrite getw_setw by (rewrite nworkers_setw, (p_n _ _ _ _ _ _ s I); exact Hi).
+      destruct (i =? x); [reflexivity|]. apply getw_setw. rewrite (p_n _ _ _ _ _ _ s I). exact Hj.
+    Qed.
+    Lemma rc_self : getw s' i = w'. Proof. rewrite rc_getw, Nat.eqb_refl. reflexivity. Qed.
+    Lemma rc_b : getw s' j = b'.
+    Proof. rewrite rc_getw. pose proof rc_ij. destruct (Nat.eqb_spec i j); [lia|]. now rewrite Nat.eqb_refl. Qed.
+    Lemma rc_other x : x <> i -> x <> j -> getw s' x = getw s x.
+    Proof. intros H1 H2. rewrite rc_getw. destruct (Nat.eqb_spec i x); [congruence|]. destruct (Nat.eqb_spec j x); [congruence|reflexivity]. Qed.
+    Lemma rc_field {A} (f : wstate -> A) x : f w' = f w -> f b' = f b -> f (getw s' x) = f (getw s x).
+    Proof.
+      intros E1 E2. rewrite rc_getw. destruct (Nat.eqb_spec i x); [subst; exact E1|].
+      destruct (Nat.eqb_spec j x); [subst; exact E2|reflexivity].
+    Qed.
+    Lemma rc_emit x : w_emit (getw s' x) = w_emit (getw s x). Proof. apply rc_field; reflexivity. Qed.
+    Lemma rc_next x : w_next (getw s' x) = w_next (getw s x). Proof. apply rc_field; reflexivity. Qed.
+    Lemma rc_active x : w_active (getw s' x) = w_active (getw s x). Proof. apply rc_field; reflexivity. Qed.
+    Lemma rc_eof x : w_eof (getw s' x) = w_eof (getw s x). Proof. apply rc_field; reflexivity. Qed.
+    Lemma rc_pos x : w_pos (getw s' x) = w_pos (getw s x). Proof. apply rc_field; reflexivity. Qed.
+    Lemma rc_pc x : x <> i -> w_pc (getw s' x) = w_pc (getw s x).
+    Proof. intros Hne. rewrite rc_getw. destruct (Nat.eqb_spec i x); [congruence|]. destruct (Nat.eqb_spec j x); [subst; reflexivity|reflexivity]. Qed.
+    Lemma rc_cons x : x <> j -> w_cons (getw s' x) = w_cons (getw s x).
+    Proof. intros Hne. rewrite rc_getw. destruct (Nat.eqb_spec i x); [subst; reflexivity|]. destruct (Nat.eqb_spec j x); [congruence|reflexivity]. Qed.
+    Lemma rc_sync x : x <> j -> w_sync (getw s' x) = w_sync (getw s x).
+    Proof. intros Hne. rewrite rc_getw. destruct (Nat.eqb_spec i x); [subst; reflexivity|]. destruct (Nat.eqb_spec j x); [congruence|reflexivity]. Qed.
+    Lemma rc_emit_end x : emit_end s' x = emit_end s x.
+    Proof. unfold PChunkerInv.emit_end. now rewrite rc_emit. Qed.
+    Lemma rc_frontier x : x <> j -> frontier s' x = frontier s x.
+    Proof. intros Hne. unfold PChunkerInv.frontier. now rewrite rc_emit, rc_cons. Qed.
+    Lemma rc_onchain x : onchain s' x <-> onchain s x.
+    Proof. unfold onchain. split; intros Ho y Hy; specialize (Ho y Hy); now rewrite rc_next in *. Qed.
+
+    Lemma rc_cons_lt : w_cons b < length (w_emit b).
+    Proof. apply nth_error_Some. rewrite Hhead. discriminate. Qed.
+
+    (* nobody has j inside a skipped gap: its bucket is not empty *)
+    Lemma rc_not_in_gap a : a < j -> j < w_next (getw s a) -> False.
+    Proof.
+      intros H1 H2. destruct (p_n2b _ _ _ _ _ _ s I a j H1 H2 Hj) as [_ E]. fold b in E. pose proof rc_cons_lt. lia.
+    Qed.
+
+    (* the only active worker whose next is j is i *)
+    Lemma rc_unique a : a < nw -> w_active (getw s a) = true -> w_next (getw s a) = j -> a = i.
+    Proof. intros Ha Aa En. apply (next_unique H min max d data Hmin Hmax Hpos nw span Hspan s a i I Ha Hi Aa Hact). exact En. Qed.
+
+    Hypothesis Hpcl : pcl s' i.
+    Hypothesis Hsl : sl s' i.
+
+    Lemma recv_inv : PInv s'.
+    Proof.
+      pose proof (active_ge_kcur min max d data nw span s i I Hi Hact) as Hki.
+      pose proof rc_ij as Hij. pose proof rc_cons_lt as Hcl.
+      pose proof I as I'.
+      destruct I as [In Ich Ica Ipo Ico Ine Iac Ieo Ipc Isy Ia Ib Ic Isl Ikb Iout Icol Idone Ihand].
+      constructor.
+      - unfold s'. rewrite !nworkers_setw. exact In.
+      - intros x Hx. rewrite rc_emit. auto.
+      - intros x Hx. rewrite rc_emit. auto.
+      - intros x Hx. rewrite rc_pos, rc_emit_end. auto.
+      - intros x Hx. rewrite rc_emit. destruct (Nat.eq_dec x j) as [->|Hne].
+        + rewrite rc_b. cbn. fold b. lia.
+        + rewrite rc_cons by exact Hne. auto.
+      - intros x Hx. rewrite rc_next. auto.
+      - intros x Hx. rewrite rc_active. destruct (Nat.eq_dec x i) as [->|Hne].
+        + rewrite rc_self. cbn. rewrite Hnex. exact Hact.
+        + rewrite rc_pc by exact Hne. auto.
+      - intros x Hx He. rewrite rc_eof in He. rewrite rc_active, rc_emit_end. auto.
+      - intros x Hx. destruct (Nat.eq_dec x i) as [->|Hne]; [exact Hpcl|].
+        specialize (Ipc x Hx). unfold PChunkerInv.pcl in *. rewrite rc_pc by exact Hne. rewrite rc_next, rc_emit_end. exact Ipc.
+      - intros x Hx Hk. cbn [p_c s' setw] in Hk. unfold sync_ok. rewrite rc_emit.
+        destruct (Nat.eq_dec x j) as [->|Hne].
+        + rewrite rc_b. cbn. fold b. replace (w_cons b - 0) with (w_cons b) by lia. symmetry. exact Hhead.
+        + rewrite rc_sync, rc_cons by exact Hne. apply Isy; auto.
+      - intros a a' Hlt Ha' Hac. unfold act in Hac. rewrite rc_active in Hac. rewrite rc_next. apply Ia; auto.
+      - intros a x Hax Hxn Hx. rewrite rc_next in Hxn. rewrite rc_active, rc_emit.
+        destruct (Nat.eq_dec x j) as [->|Hne]; [exfalso; eapply rc_not_in_gap; eauto|].
+        rewrite rc_cons by exact Hne. apply (Ib a); auto.
+      - intros a x Hax Hxn Hx. rewrite !rc_next in *. apply Ic; auto.
+      - intros a Ha. destruct (Nat.eq_dec a i) as [->|Hne]; [exact Hsl|].
+        specialize (Isl a Ha). unfold PChunkerInv.sl in *. rewrite rc_pc by exact Hne. rewrite rc_next, rc_emit.
+        destruct (Nat.eq_dec (w_next (getw s a)) j) as [En|Hnj].
+        + (* a's next is j: then a is not in a state that looks at j's bucket, or a = i *)
+          destruct (w_pc (getw s a)) as [|c prev|c n|c n| |] eqn:Epc; auto.
+          * destruct prev as [p0|]; [|exact Logic.I]. exfalso. apply Hne. apply rc_unique; auto.
+            rewrite (Iac a Ha), Epc. reflexivity.
+          * exfalso. apply Hne. apply rc_unique; auto. rewrite (Iac a Ha), Epc. reflexivity.
+        + rewrite rc_cons, rc_sync by exact Hnj. exact Isl.
+      - intros x Hxk Hx. cbn [p_c s' setw] in Hxk. rewrite rc_active, rc_emit, rc_cons by lia. apply Ikb; auto.
+      - exact Iout.
+      - intros Hd. destruct (Icol Hd) as [Hk [HA|HB]]; (split; [exact Hk|]).
+        + left. unfold PChunkerInv.stateA in *. cbn [p_c s' setw] in *. rewrite rc_onchain, rc_frontier by lia. exact HA.
+        + right. unfold PChunkerInv.stateB in *. cbn [p_c s' setw] in *.
+          destruct HB as (a & Ha & Ho & Hn & Hn' & Hf). exists a.
+          rewrite rc_onchain, rc_next.
+          assert (Hnj : w_next (getw s a) <> j).
+          { intro En. destruct (Ib a i ltac:(lia) ltac:(rewrite En; exact Hij) Hi) as [Hf' _]. congruence. }
+          rewrite rc_frontier by exact Hnj. tauto.
+      - exact Idone.
+      - intros a Ha Hk Hac He Ho. cbn [p_c s' setw] in Hk. rewrite rc_active in Hac. rewrite rc_eof in He. rewrite rc_onchain in Ho.
+        rewrite rc_next, rc_emit_end. destruct (Ihand a Ha Hk Hac He Ho) as [H1 H2]. split; [exact H1|].
+        assert (Hnj : w_next (getw s a) <> j).
+        { intro En. assert (a <> i) by congruence.
+          destruct (Nat.lt_trichotomy a i) as [Hlt|[|Hgt]]; [|congruence|].
+          - destruct (Ib a i Hlt ltac:(rewrite En; exact Hij) Hi) as [Hf' _]. congruence.
+          - apply (Ho i Hgt). fold w. fold j. rewrite <- En. apply Ine. exact Ha. }
+        rewrite rc_frontier by exact Hnj. exact H2.
+    Qed.
+  End Recv.
+
+  (* ---------- a worker skips its stopped, drained neighbour ---------- *)
+
+  Section SkipS.
+    Variables (s : pstate) (i : nat).
+    Hypothesis I : PInv s.
+    Hypothesis Hi : i < nw.
+    Hypothesis Hact : w_active (getw s i) = true.
+    Let w := getw s i.
+    Let j := w_next w.
+    Hypothesis Hj : j < nw.
+    Let b := getw s j.
+    Hypothesis Hbin : w_active b = false.
+    Hypothesis Hbempty : length (w_emit b) <= w_cons b.
+    Let w' := {| w_pos := w_pos w; w_emit := w_emit w; w_cons := w_cons w; w_sync := w_sync w;
+                 w_next := w_next b; w_active := true; w_eof := false; w_pc := Top |}.
+    Let s' := setw s i w'.
+
+    Lemma sk_getw x : getw s' x = if i =? x then w' else getw s x.
+    Proof. unfold s'. apply getw_setw. rewrite (p_n _ _ _ _ _ _ s I). exact Hi. Qed.
+    Lemma sk_self : getw s' i = w'. Proof. rewrite sk_getw, Nat.eqb_refl. reflexivity. Qed.
+    Lemma sk_other x : x <> i -> getw s' x = getw s x.
+    Proof. intros Hne. rewrite sk_getw. destruct (Nat.eqb_spec i x); [congruence|reflexivity]. Qed.
+    Lemma sk_field {A} (f : wstate -> A) x : f w' = f w -> f (getw s' x) = f (getw s x).
+    Proof. intros E. rewrite sk_getw. destruct (Nat.eqb_spec i x); [subst; exact E|reflexivity]. Qed.
+    Lemma sk_emit x : w_emit (getw s' x) = w_emit (getw s x). Proof. apply sk_field; reflexivity. Qed.
+    Lemma sk_cons x : w_cons (getw s' x) = w_cons (getw s x). Proof. apply sk_field; reflexivity. Qed.
+    Lemma sk_sync x : w_sync (getw s' x) = w_sync (getw s x). Proof. apply sk_field; reflexivity. Qed.
+    Lemma sk_pos x : w_pos (getw s' x) = w_pos (getw s x). Proof. apply sk_field; reflexivity. Qed.
+    Lemma sk_active x : w_active (getw s' x) = w_active (getw s x).
+    Proof. apply sk_field. cbn. symmetry. exact Hact. Qed.
+    Lemma sk_eof x : w_eof (getw s' x) = w_eof (getw s x).
+    Proof.
+      apply sk_field. cbn. symmetry. destruct (w_eof w) eqn:E; [|reflexivity].
+      destruct (p_eof _ _ _ _ _ _ s I i Hi E) as [Hf _]. unfold w in *. congruence.
+    Qed.
+    Lemma sk_next x : w_next (getw s' x) = if i =? x then w_next b else w_next (getw s x).
+    Proof. rewrite sk_getw. destruct (i =? x); reflexivity. Qed.
+    Lemma sk_next_ge x : w_next (getw s x) <= w_next (getw s' x).
+    Proof.
+      rewrite sk_next. destruct (Nat.eqb_spec i x) as [<-|]; [|lia].
+      pose proof (p_next _ _ _ _ _ _ s I j Hj). fold w. fold j. fold b in H0. lia.
+    Qed.
+    Lemma sk_emit_end x : emit_end s' x = emit_end s x.
+    Proof. unfold PChunkerInv.emit_end. now rewrite sk_emit. Qed.
+    Lemma sk_frontier x : frontier s' x = frontier s x.
+    Proof. unfold PChunkerInv.frontier. now rewrite sk_emit, sk_cons. Qed.
+    Lemma sk_onchain_mono x : onchain s' x -> onchain s x.
+    Proof. unfold onchain. intros Ho y Hy Hlt. apply (Ho y Hy). pose proof (sk_next_ge y). lia. Qed.
+    Lemma sk_onchain_low x : x <= i -> onchain s x -> onchain s' x.
+    Proof. unfold onchain. intros Hx Ho y Hy. rewrite sk_next. destruct (Nat.eqb_spec i y); [lia|]. apply Ho. exact Hy. Qed.
+
+    Lemma skip_inv : PInv s'.
+    Proof.
+      pose proof (active_ge_kcur min max d data nw span s i I Hi Hact) as Hki.
+      assert (Hij : i < j) by (apply (p_next _ _ _ _ _ _ s I i Hi)).
+      assert (Hjn : j < w_next b) by (apply (p_next _ _ _ _ _ _ s I j Hj)).
+      assert (Hbe : w_cons b = length (w_emit b)) by (pose proof (p_cons _ _ _ _ _ _ s I j Hj); fold b in H0; lia).
+      pose proof I as I'.
+      destruct I as [In Ich Ica Ipo Ico Ine Iac Ieo Ipc Isy Ia Ib Ic Isl Ikb Iout Icol Idone Ihand].
+      constructor.
+      - unfold s'. rewrite nworkers_setw. exact In.
+      - intros x Hx. rewrite sk_emit. auto.
+      - intros x Hx. rewrite sk_emit. auto.
+      - intros x Hx. rewrite sk_pos, sk_emit_end. auto.
+      - intros x Hx. rewrite sk_cons, sk_emit. auto.
+      - intros x Hx. rewrite sk_next. destruct (Nat.eqb_spec i x) as [<-|]; [lia|auto].
+      - intros x Hx. destruct (Nat.eq_dec x i) as [->|Hne]; [rewrite sk_self; reflexivity|].
+        rewrite (sk_other x Hne). auto.
+      - intros x Hx He. rewrite sk_eof in He. rewrite sk_active, sk_emit_end. auto.
+      - intros x Hx. destruct (Nat.eq_dec x i) as [->|Hne].
+        + unfold PChunkerInv.pcl. rewrite sk_self. exact Logic.I.
+        + specialize (Ipc x Hx). unfold PChunkerInv.pcl in *. rewrite (sk_other x Hne), sk_emit_end. exact Ipc.
+      - intros x Hx Hk. unfold sync_ok. rewrite sk_sync, sk_cons, sk_emit. apply Isy; auto.
+      - intros a a' Hlt Ha' Hac. unfold act in Hac. rewrite sk_active in Hac. rewrite sk_next.
+        destruct (Nat.eqb_spec i a) as [<-|Hne]; [|apply Ia; auto].
+        pose proof (Ia i a' Hlt Ha' Hac) as H1. fold w in H1. fold j in H1.
+        assert (j <> a') by (intro; subst a'; unfold b in Hbin; congruence).
+        apply (Ia j a'); auto. lia.
+      - intros a x Hax Hxn Hx. rewrite sk_next in Hxn. rewrite sk_active, sk_cons, sk_emit.
+        destruct (Nat.eqb_spec i a) as [<-|Hne]; [|apply (Ib a); auto].
+        destruct (Nat.lt_trichotomy x j) as [Hlt|[->|Hgt]].
+        + apply (Ib i); auto.
+        + fold b. auto.
+        + apply (Ib j); auto.
+      - intros a x Hax Hxn Hx. rewrite !sk_next in *.
+        destruct (Nat.eqb_spec i a) as [<-|Hne].
+        + destruct (Nat.eqb_spec i x); [lia|].
+          destruct (Nat.lt_trichotomy x j) as [Hlt|[->|Hgt]].
+          * pose proof (Ic i x Hax Hlt Hx). fold w j in H0. lia.
+          * fold b. lia.
+          * apply (Ic j x); auto.
+        + destruct (Nat.eqb_spec i x) as [<-|Hnx]; [|apply Ic; auto].
+          (* i lies in a's gap: impossible, i is active *)
+          destruct (Ib a i Hax Hxn Hi) as [Hf _]. congruence.
+      - intros a Ha. destruct (Nat.eq_dec a i) as [->|Hne].
+        + unfold PChunkerInv.sl. rewrite sk_self. exact Logic.I.
+        + specialize (Isl a Ha). unfold PChunkerInv.sl in *. rewrite (sk_other a Hne), sk_cons, sk_emit, sk_sync. exact Isl.
+      - intros x Hxk Hx. cbn in Hxk. rewrite sk_active, sk_cons, sk_emit. apply Ikb; auto.
+      - exact Iout.
+      - intros Hd. destruct (Icol Hd) as [Hk [HA|HB]]; (split; [exact Hk|]).
+        + left. unfold PChunkerInv.stateA in *. cbn [p_c s' setw] in *. destruct HA as [Ho Hf].
+          split; [apply sk_onchain_low; auto|]. rewrite sk_frontier. exact Hf.
+        + right. unfold PChunkerInv.stateB in *. cbn [p_c s' setw] in *.
+          destruct HB as (a & Ha & Ho & Hn & Hn' & Hf). exists a.
+          assert (a <> i) by lia. rewrite (sk_other a H0), sk_frontier.
+          repeat split; auto. apply sk_onchain_low; [lia|exact Ho].
+      - exact Idone.
+      - intros a Ha Hk Hac He Ho. rewrite sk_active in Hac. rewrite sk_eof in He. apply sk_onchain_mono in Ho.
+        assert (a <> i) by (intro; subst a; congruence).
+        rewrite (sk_other a H0), sk_frontier, sk_emit_end. apply Ihand; auto.
+    Qed.
+  End SkipS.
+
+  (* ---------- the collector ---------- *)
+
+  Section Collector.
+    Variable s : pstate.
+    Hypothesis I : PInv s.
+    Hypothesis Hnd : k_done (p_c s) = false.
+    Let k := k_cur (p_c s).
+    Let out := k_out (p_c s).
+    Let w := getw s k.
+
+    Lemma co_k : k < nw. Proof. apply (p_col _ _ _ _ _ _ s I Hnd). Qed.
+
+    Lemma co_not_B : nth_error (w_emit w) (w_cons w) <> None -> stateA s.
+    Proof.
+      intros Hh. destruct (p_col _ _ _ _ _ _ s I Hnd) as [_ [HA|HB]]; [exact HA|].
+      exfalso. destruct HB as (a & Ha & _ & Hn & _ & _).
+      destruct (p_n2b _ _ _ _ _ _ s I a k Ha Hn co_k) as [_ E]. fold w in E.
+      apply Hh. apply nth_error_None. lia.
+    Qed.
+
+    (* C1: receive a chunk from the current worker's bucket *)
+    Section Take.
+      Variable v : chunk.
+      Hypothesis Hhead : nth_error (w_emit w) (w_cons w) = Some v.
+      Let s' := {| p_w := set_nth (p_w s) k (take_w w);
+                   p_c := {| k_cur := k; k_out := out ++ [v]; k_done := false |} |}.
+
+      Lemma tk_getw x : getw s' x = if k =? x then take_w w else getw s x.
+      Proof.
+        unfold getw, s'. cbn. rewrite nth_set_nth.
+        pose proof co_k. rewrite <- (p_n _ _ _ _ _ _ s I) in H0. unfold nworkers in H0.
+        replace (k <? length (p_w s)) with true by (symmetry; apply Nat.ltb_lt; exact H0). now rewrite andb_true_r.
+      Qed.
+      Lemma tk_other x : x <> k -> getw s' x = getw s x.
+      Proof. intros Hne. rewrite tk_getw. destruct (Nat.eqb_spec k x); [congruence|reflexivity]. Qed.
+      Lemma tk_field {A} (f : wstate -> A) x : f (take_w w) = f w -> f (getw s' x) = f (getw s x).
+      Proof. intros E. rewrite tk_getw. destruct (Nat.eqb_spec k x); [subst; exact E|reflexivity]. Qed.
+      Lemma tk_emit x : w_emit (getw s' x) = w_emit (getw s x). Proof. apply tk_field; reflexivity. Qed.
+      Lemma tk_next x : w_next (getw s' x) = w_next (getw s x). Proof. apply tk_field; reflexivity. Qed.
+      Lemma tk_active x : w_active (getw s' x) = w_active (getw s x). Proof. apply tk_field; reflexivity. Qed.
+      Lemma tk_eof x : w_eof (getw s' x) = w_eof (getw s x). Proof. apply tk_field; reflexivity. Qed.
+      Lemma tk_pos x : w_pos (getw s' x) = w_pos (getw s x). Proof. apply tk_field; reflexivity. Qed.
+      Lemma tk_pc x : w_pc (getw s' x) = w_pc (getw s x). Proof. apply tk_field; reflexivity. Qed.
+      Lemma tk_sync x : w_sync (getw s' x) = w_sync (getw s x). Proof. apply tk_field; reflexivity. Qed.
+      Lemma tk_cons x : x <> k -> w_cons (getw s' x) = w_cons (getw s x).
+      Proof. intros Hne. now rewrite (tk_other x Hne). Qed.
+      Lemma tk_emit_end x : emit_end s' x = emit_end s x.
+      Proof. unfold PChunkerInv.emit_end. now rewrite tk_emit. Qed.
+      Lemma tk_frontier x : x <> k -> frontier s' x = frontier s x.
+      Proof. intros Hne. unfold PChunkerInv.frontier. now rewrite tk_emit, tk_cons. Qed.
+      Lemma tk_onchain x : onchain s' x <-> onchain s x.
+      Proof. unfold onchain. split; intros Ho y Hy; specialize (Ho y Hy); now rewrite tk_next in *. Qed.
+
+      Lemma take_inv : PInv s'.
+      Proof.
+        pose proof co_k as Hk.
+        assert (HA : stateA s) by (apply co_not_B; rewrite Hhead; discriminate).
+        assert (Hcl : w_cons w < length (w_emit w)) by (apply nth_error_Some; rewrite Hhead; discriminate).
+        pose proof (frontier_cons min max d data nw span s k I Hk v Hhead) as Hvs.
+        pose proof I as I'.
+        destruct I as [In Ich Ica Ipo Ico Ine Iac Ieo Ipc Isy Ia Ib Ic Isl Ikb Iout Icol Idone Ihand].
+        destruct HA as [HAo HAf]. fold k in HAo, HAf. fold out in HAf.
+        constructor.
+        - unfold nworkers, s'. cbn. rewrite set_nth_length. exact In.
+        - intros x Hx. rewrite tk_emit. auto.
+        - intros x Hx. rewrite tk_emit. auto.
+        - intros x Hx. rewrite tk_pos, tk_emit_end. auto.
+        - intros x Hx. rewrite tk_emit. destruct (Nat.eq_dec x k) as [->|Hne].
+          + rewrite tk_getw, Nat.eqb_refl. cbn. lia.
+          + rewrite tk_cons by exact Hne. auto.
+        - intros x Hx. rewrite tk_next. auto.
+        - intros x Hx. rewrite tk_active, tk_pc. auto.
+        - intros x Hx He. rewrite tk_eof in He. rewrite tk_active, tk_emit_end. auto.
+        - intros x Hx. specialize (Ipc x Hx). unfold PChunkerInv.pcl in *. rewrite tk_pc, tk_next, tk_emit_end. exact Ipc.
+        - intros x Hx Hkx. cbn [p_c s'] in Hkx. unfold sync_ok. rewrite tk_sync, tk_emit, tk_cons by lia. apply Isy; auto.
+        - intros a a' Hlt Ha' Hac. unfold act in Hac. rewrite tk_active in Hac. rewrite tk_next. apply Ia; auto.
+        - intros a x Hax Hxn Hx. rewrite tk_next in Hxn. rewrite tk_active, tk_emit.
+          destruct (Nat.eq_dec x k) as [->|Hne].
+          + exfalso. destruct (Ib a k Hax Hxn Hx) as [_ E]. fold w in E. lia.
+          + rewrite tk_cons by exact Hne. apply (Ib a); auto.
+        - intros a x Hax Hxn Hx. rewrite !tk_next in *. apply Ic; auto.
+        - intros a Ha. specialize (Isl a Ha). unfold PChunkerInv.sl in *. rewrite tk_pc, tk_next, tk_emit, tk_sync.
+          destruct (Nat.eq_dec (w_next (getw s a)) k) as [En|Hnk].
+          + (* a's next is the collector's worker: a < k is stopped *)
+            assert (Hak : a < k) by (rewrite <- En; apply Ine; exact Ha).
+            destruct (Ikb a Hak Ha) as [Hf _]. rewrite (Iac a Ha) in Hf.
+            destruct (w_pc (getw s a)); cbn in Hf; try discriminate. exact Logic.I.
+          + rewrite tk_cons by exact Hnk. exact Isl.
+        - intros x Hxk Hx. cbn [p_c s' k_cur] in Hxk. rewrite tk_active, tk_emit, tk_cons by lia. apply Ikb; auto.
+        - cbn [p_c s' k_out]. destruct Iout as [Oc Of]. split.
+          + apply chain_app. split; [exact Oc|]. cbn. split; [|exact Logic.I]. rewrite Hvs. fold k. rewrite HAf. lia.
+          + apply Forall_app. split; [exact Of|]. constructor; [|constructor].
+            pose proof (Ica k Hk) as Hf. rewrite Forall_forall in Hf. apply Hf. eapply nth_error_In. exact Hhead.
+        - intros _. cbn [p_c s' k_cur]. split; [exact Hk|]. left. unfold PChunkerInv.stateA. cbn [p_c s' k_cur k_out].
+          split; [apply tk_onchain; exact HAo|].
+          unfold PChunkerInv.frontier. rewrite tk_emit. rewrite tk_getw, Nat.eqb_refl. cbn [w_cons take_w].
+          fold w. rewrite (covered_firstn_S _ _ _ Hhead), covered_app.
+          unfold PChunkerInv.frontier in HAf. fold w in HAf. unfold covered at 3. cbn. lia.
+        - cbn. discriminate.
+        - intros a Ha Hka Hac He Ho. cbn [p_c s' k_cur] in Hka. rewrite tk_active in Hac. rewrite tk_eof in He. rewrite tk_onchain in Ho.
+          rewrite tk_next, tk_emit_end. destruct (Ihand a Ha Hka Hac He Ho) as [H1 H2]. split; [exact H1|].
+          rewrite tk_frontier; [exact H2|]. pose proof (Ine a Ha). lia.
+      Qed.
+    End Take.
+
+    (* C2: the index covers the file: done *)
+    Lemma done_inv :
+      length data <= out_length out ->
+      PInv {| p_w := p_w s; p_c := {| k_cur := k; k_out := out; k_done := true |} |}.
+    Proof.
+      intros Hcov.
+      destruct I as [In Ich Ica Ipo Ico Ine Iac Ieo Ipc Isy Ia Ib Ic Isl Ikb Iout Icol Idone Ihand].
+      constructor; auto.
+      - cbn. discriminate.
+      - intros _. cbn. destruct Iout as [Oc _]. fold out in Oc. rewrite <- (out_length_chain out Oc). exact Hcov.
+    Qed.
+
+    (* C3: the current worker has stopped and its bucket is drained: move on *)
+    Lemma move_inv :
+      w_active w = false -> nth_error (w_emit w) (w_cons w) = None -> out_length out < length data ->
+      PInv {| p_w := p_w s; p_c := {| k_cur := S k; k_out := out; k_done := false |} |}.
+    Proof.
+      intros Hin Hhead Hcov.
+      pose proof co_k as Hk.
+      assert (Hce : w_cons w = length (w_emit w)).
+      { apply nth_error_None in Hhead. pose proof (p_cons _ _ _ _ _ _ s I k Hk). fold w in H0. lia. }
+      pose proof I as I'.
+      destruct I as [In Ich Ica Ipo Ico Ine Iac Ieo Ipc Isy Ia Ib Ic Isl Ikb Iout Icol Idone Ihand].
+      destruct Iout as [Oc Of]. fold out in Oc, Of.
+      assert (Hol : out_length out = covered out) by (apply out_length_chain; exact Oc).
+      set (s' := {| p_w := p_w s; p_c := {| k_cur := S k; k_out := out; k_done := false |} |}).
+      assert (Hg : forall x, getw s' x = getw s x) by reflexivity.
+      assert (Hcol' : S k < nw /\ (stateA s' \/ stateB s')).
+      { destruct (Icol Hnd) as [_ [HA|HB]].
+        - (* on chain at k *)
+          destruct HA as [HAo HAf]. fold k in HAo, HAf. fold out in HAf.
+          assert (Hfe : frontier s k = emit_end s k).
+          { unfold PChunkerInv.frontier, PChunkerInv.emit_end. fold w. rewrite Hce, firstn_all. reflexivity. }
+          assert (Hne : w_eof w = false).
+          { destruct (w_eof w) eqn:E; [|reflexivity]. exfalso.
+            destruct (Ieo k Hk E) as [_ E2]. lia. }
+          destruct (Ihand k Hk (Nat.le_refl _) Hin Hne HAo) as [Hn1 Hn2]. fold w in Hn1, Hn2.
+          pose proof (Ine k Hk) as Hkn. fold w in Hkn.
+          destruct (Nat.eq_dec (w_next w) (S k)) as [En|Hnn].
+          + split; [lia|]. left. unfold PChunkerInv.stateA. cbn [p_c s' k_cur k_out]. split.
+            * intros x Hx Hlt. rewrite Hg in Hlt. destruct (Nat.eq_dec x k) as [->|Hxk]; [fold w in Hlt; lia|].
+              apply (HAo x ltac:(lia)). lia.
+            * unfold PChunkerInv.frontier in *. rewrite Hg. rewrite <- En. rewrite Hn2. lia.
+          + split; [lia|]. right. unfold PChunkerInv.stateB. cbn [p_c s' k_cur k_out]. exists k.
+            rewrite Hg. fold w. repeat split; try lia.
+            * intros x Hx Hlt. rewrite Hg in Hlt. apply (HAo x Hx Hlt).
+            * unfold PChunkerInv.frontier in *. rewrite Hg. rewrite Hn2. lia.
+        - (* in the gap of a *)
+          destruct HB as (a & Ha & Ho & Hn & Hn' & Hf). fold k in Ha, Hn. fold out in Hf.
+          destruct (Nat.eq_dec (w_next (getw s a)) (S k)) as [En|Hnn].
+          + split; [lia|]. left. unfold PChunkerInv.stateA. cbn [p_c s' k_cur k_out]. split.
+            * intros x Hx Hlt. rewrite Hg in Hlt. rewrite <- En in *.
+              destruct (Nat.lt_trichotomy x a) as [Hxa|[->|Hxa]].
+              -- apply (Ho x Hxa). pose proof (Ine a ltac:(lia)). lia.
+              -- lia.
+              -- pose proof (Ic a x Hxa Hx ltac:(lia)). lia.
+            * unfold PChunkerInv.frontier in *. rewrite Hg, <- En. exact Hf.
+          + split; [lia|]. right. unfold PChunkerInv.stateB. cbn [p_c s' k_cur k_out]. exists a.
+            rewrite Hg. repeat split; try lia.
+            * intros x Hx Hlt. rewrite Hg in Hlt. apply (Ho x Hx Hlt).
+            * unfold PChunkerInv.frontier in *. rewrite Hg. exact Hf. }
+      constructor; auto.
+      - intros x Hx Hkx. cbn [p_c k_cur] in Hkx. apply Isy; [exact Hx|]. fold k. lia.
+      - intros x Hxk Hx. cbn [p_c k_cur] in Hxk. rewrite Hg. destruct (Nat.eq_dec x k) as [->|Hne].
+        + fold w. split; [exact Hin|exact Hce].
+        + apply Ikb; [fold k; lia|exact Hx].
+      - split; assumption.
+      - intros _. exact Hcol'.
+      - cbn. discriminate.
+      - intros a Ha Hka Hac He Ho. cbn [p_c k_cur] in Hka. apply Ihand; auto. fold k. lia.
+    Qed.
+  End Collector.
 End Steps.
